@@ -627,7 +627,7 @@ func TestVerif_C47(t *testing.T) {
 	vx.Run(t, "C47", func(c *vx.Ctx) {
 		nss := []string{"", "http://ns.example/", "urn:x:y", "DAV:"}
 		locals := []string{"a", "b-c", "x.y", "_u"}
-		c.Rule(fmt.Sprintf("roundtrip: resource {/f file, /d collection} x namespace %q x local name %q x value (inner XML as written) %q x spelling {default namespace on the property element, prefix declared on the property element, prefix declared on the document element} x xml:lang {none, en}: PROPPATCH set; PROPFIND by name (plus a never-set name), allprop and propname; PROPPATCH remove; PROPFIND by name and allprop again. The content the harness sent and the content returned are both read with encoding/xml and compared as namespace-resolved token streams (element names and attributes with namespace URIs, character data; comments and prefix spelling ignored); a set property must come back with status 200 and equal content, a removed or never-set one with status 404 and must be missing from allprop. seq: explicit-state search to closure over PROPPATCH requests of 1 or 2 set/remove instructions (and 2 requests naming a protected live property, which must apply nothing) over 3 (thorough 4) names x 3 (thorough 4) values; state = dead properties of the resource (DeadPropsHolder) + model; the same comparison after every request. non-trivial = set accepted and all PROPFIND answers compared / transition applied and compared", nss, locals, c47Values))
+		c.Rule(fmt.Sprintf("roundtrip: resource {/f file, /d collection} x namespace %q x local name %q x value (inner XML as written) %q x spelling {default namespace on the property element, prefix declared on the property element, prefix declared on the document element} x xml:lang {none, en}: PROPPATCH set; PROPFIND by name (plus a never-set name), allprop and propname; PROPPATCH remove; PROPFIND by name and allprop again. The content the harness sent and the content returned are both read with encoding/xml and compared as namespace-resolved token streams (element names and attributes with namespace URIs, character data; comments and prefix spelling ignored); a set property must come back with status 200 and equal content, a removed or never-set one with status 404 and must be missing from allprop. seq: explicit-state search to closure over PROPPATCH requests of 1 or 2 set/remove instructions (and 2 requests naming a protected live property, which must apply nothing) over 3 (thorough 4) names x 2 (thorough 4) values; state = dead properties of the resource (DeadPropsHolder) + model; the same comparison after every request. non-trivial = set accepted and all PROPFIND answers compared / transition applied and compared", nss, locals, c47Values))
 		c.Assume("in-memory file system only (NewMemFS, NewMemLS); Depth 0; no locks held; no Prefix")
 		c.Assume("xml:lang is sent but its return is not part of the oracle; the position of properties inside the response and the live properties are ignored")
 		c.Assume("a PROPPATCH that names a protected live property is expected to apply nothing (documented atomicity); the model follows the per-property status of the PROPPATCH response otherwise")
@@ -651,10 +651,10 @@ func TestVerif_C47(t *testing.T) {
 		}, c47RoundTrip)
 
 		names := []xml.Name{{Space: "http://ns.example/", Local: "a"}, {Space: "http://ns.example/", Local: "b-c"}, {Space: "urn:x:y", Local: "a"}}
-		values := []string{"", "text", `<n:e xmlns:n="u">x</n:e>`}
+		values := []string{"", "text"}
 		if !c.Quick() {
 			names = append(names, xml.Name{Space: "", Local: "_u"})
-			values = append(values, "a&amp;b")
+			values = append(values, `<n:e xmlns:n="u">x</n:e>`, "a&amp;b")
 		}
 		c47Seq(c, "seq-file", "/f", names, values)
 		c47Seq(c, "seq-collection", "/d", names, values)
